@@ -122,7 +122,7 @@ def cpy_parse(src, mode):
 def cpy_tokens(src):
     try:
         return "ok", list(pytok.generate_tokens(io.StringIO(src).readline))
-    except (pytok.TokenError, SyntaxError, IndentationError) as e:
+    except (pytok.TokenError, SyntaxError, IndentationError, UnicodeDecodeError, ValueError) as e:
         return "error", e
 
 
@@ -558,7 +558,8 @@ def c08(X, src):
     return tiling(X.tokenize.Token, toks, read_lines(src))
 
 
-_SIG_PY = None
+import re as _re_mod
+_NUMBER_RE = _re_mod.compile(pytok.Number)
 
 
 def c09(X, src):
@@ -568,6 +569,21 @@ def c09(X, src):
     k, ref = cpy_tokens(src)
     if k != "ok":
         return None
+    # domain: Python sources and token-level fragments of them - not text that contains xonsh-only lexemes
+    prev = None
+    for t in ref:
+        if t.string in ("$", "?", "!", "`", "<>") and t.type in (pytok.OP, pytok.ERRORTOKEN):
+            return None   # ('<>' is the barry_as_FLUFL operator, not ordinary Python)
+        if prev is not None and prev.type == pytok.OP and t.type == pytok.OP and prev.end == t.start \
+                and (prev.string, t.string) in (("&", "&"), ("|", "|"), (">", "&"), ("|", "|="), ("&", "&="), (">", "&=")):
+            return None
+        if t.type == pytok.NAME and not t.string.isidentifier():
+            return None   # the C tokenizer is lenient about non-ASCII characters; the parser rejects them later
+        if t.type == pytok.ERRORTOKEN:
+            return None
+        if t.type == pytok.NUMBER and not _NUMBER_RE.fullmatch(t.string):
+            return None   # lenient C tokenizer: spellings such as 08 or 1__0 are rejected by the parser
+        prev = t
     # domain: CPython 3.12.1 reports byte-derived columns for a multi-line token after a non-ASCII char
     if not src.isascii():
         for t in ref:
@@ -587,6 +603,10 @@ def c09(X, src):
     for t in toks:
         if t.type in (T.WS, T.COMMENT, T.NL):
             continue
+        if t.type in (T.STRING, T.FSTRING_START):
+            pre = t.string[: min(i for i in (t.string.find("'"), t.string.find('"')) if i >= 0)]
+            if "p" in pre.lower():
+                return None   # p-strings are xonsh-only lexemes (a NAME glued to a string is never valid Python)
         ours.append((t.type.name, t.string, tuple(t.start), tuple(t.end)))
     theirs = []
     for t in ref:
@@ -608,17 +628,19 @@ def c09(X, src):
 
     def norm(x):
         name, s, a, b = x
-        if name in ("NEWLINE", "ENDMARKER", "DEDENT"):
-            return (name, "", a if name != "NEWLINE" else a, None)
+        if name in ("NEWLINE", "ENDMARKER", "DEDENT", "INDENT"):
+            return (name, "", None, None)   # the property fixes their place in the sequence, not their coordinates
         return x
     no = [norm(x) for x in ours]
     nt = [norm(x) for x in theirs]
     if no != nt:
+        import re as _re
+        feat = {"feature": "lone-cr-newline"} if _re.search(r"\r(?!\n)", src) else {}
         for i, (a, b) in enumerate(zip(no, nt)):
             if a != b:
-                return {"kind": "token-differs", "observed": f"#{i} ours {a}", "expected": f"cpython {b}"}
+                return {"kind": "token-differs", "observed": f"#{i} ours {a}", "expected": f"cpython {b}", **feat}
         return {"kind": "token-count-differs", "observed": f"ours {len(no)} tokens; tail {no[len(nt):][:3]}",
-                "expected": f"cpython {len(nt)} tokens; tail {nt[len(no):][:3]}"}
+                "expected": f"cpython {len(nt)} tokens; tail {nt[len(no):][:3]}", **feat}
     return None
 
 
